@@ -1,22 +1,28 @@
 #!/bin/sh
-# Applies every seeded change under /verif/seeded to a scratch worktree of /repo HEAD, runs the
+# Applies every seeded change under <verif>/seeded to a scratch worktree of /repo HEAD, runs the
 # check of its property (quick tier; thorough as well when quick misses it) and writes the
-# catch matrix to /verif/seeded/MATRIX.md. The worktree is removed afterwards.
-WT=/var/tmp/verif-scratch-seedmatrix
-OUT=/var/tmp/verif-scratch-seedout
-git -C /repo worktree remove --force $WT 2>/dev/null
+# catch matrix to <verif>/seeded/MATRIX.md. The worktree is removed afterwards.
+# <verif> is the directory of this script (so it works from a `vp run` snapshot); optional
+# arguments restrict the run to the named seeds (e.g. C11-1 C12-3).
+V=$(cd "$(dirname "$0")" && pwd)
+if [ ! -x $V/bin/govc ]; then (cd $V/govc && GOFLAGS=-mod=mod GOPROXY=off GOTOOLCHAIN=local PATH=/opt/veriftools/go1.26.8/bin:$PATH go build -o $V/bin/govc .) || exit 2; fi
+TAG=$$
+WT=/var/tmp/verif-scratch-seedmatrix-$TAG
+OUT=/var/tmp/verif-scratch-seedout-$TAG
 git -C /repo worktree add --detach $WT HEAD -q || exit 2
-M=/verif/seeded/MATRIX.md
+M=$V/seeded/MATRIX.md
+[ $# -gt 0 ] && M=$V/seeded/MATRIX.partial.md
 echo "| seed | property | caught by quick | caught by thorough | first reported obligation / case |" > $M
 echo "|---|---|---|---|---|" >> $M
-for d in /verif/seeded/C*/; do
+if [ $# -gt 0 ]; then LIST=""; for s in "$@"; do LIST="$LIST $V/seeded/$s/"; done; else LIST=$(ls -d $V/seeded/C*/); fi
+for d in $LIST; do
   s=$(basename $d); id=${s%-*}
   git -C $WT checkout -q -- . && git -C $WT clean -fdq
   if ! git -C $WT apply $d/patch.diff 2>/dev/null; then echo "| $s | $id | patch does not apply | | |" >> $M; continue; fi
-  q=$(/verif/bin/govc check $id --tier quick --repo $WT --out $OUT 2>&1)
+  q=$($V/bin/govc check $id --tier quick --repo $WT --verif $V --out $OUT 2>&1)
   if echo "$q" | grep -q '^VIOLATION'; then qc=yes; tc="-"; first=$(echo "$q" | grep -A1 '^VIOLATION' | grep -v '^VIOLATION' | head -1 | cut -c1-160 | tr '|' '/')
   else qc=no
-    t=$(/verif/bin/govc check $id --tier thorough --repo $WT --out $OUT 2>&1)
+    t=$($V/bin/govc check $id --tier thorough --repo $WT --verif $V --out $OUT 2>&1)
     if echo "$t" | grep -q '^VIOLATION'; then tc=yes; first=$(echo "$t" | grep -A1 '^VIOLATION' | grep -v '^VIOLATION' | head -1 | cut -c1-160 | tr '|' '/'); else tc=no; first=""; fi
   fi
   echo "| $s | $id | $qc | $tc | $first |" >> $M
